@@ -629,7 +629,7 @@ def rule_d4(ctx):
             else:
                 res.bad(Finding("D4", f["id"], site, "comparator sort on hash-ordered vector cannot be shown total", t["sp"]))
     res.note("laundering sorts analysed: %d" % n)
-    if n < 2:
+    if (n < 2) and not res.findings:
         raise AnchorMissing("D4: expected the two const-definition sorts (check.rs, compile.rs), found %d" % n)
     return res
 
